@@ -839,12 +839,39 @@ func (e *specEnv) visited(k *ast.CallExpr) Val {
 	c := e.c()
 	// find the (unique) map range of the function whose visited set is in state
 	var name string
-	for n := range e.state() {
-		if strings.HasPrefix(n, "$visited$") && !strings.HasSuffix(n, "$dom0") {
-			if name != "" && len(k.Args) < 2 {
-				e.fail("visited(): several map ranges; not supported yet")
+	n := 0
+	for nm := range e.state() {
+		if strings.HasPrefix(nm, "$visited$") && !strings.HasSuffix(nm, "$dom0") {
+			n++
+			name = nm
+		}
+	}
+	if n > 1 {
+		// several map ranges in the function: the one meant is the innermost
+		// range whose header dominates the point of evaluation
+		name = ""
+		best := -1
+		for rv, ri := range e.f.rangeOf {
+			r, ok := rv.(*ssa.Range)
+			if !ok || ri == nil || ri.visited == "" || e.at == nil {
+				continue
 			}
-			name = n
+			if _, inState := e.state()[ri.visited]; !inState {
+				continue
+			}
+			if r.Block() != e.at && !r.Block().Dominates(e.at) {
+				continue
+			}
+			depth := 0
+			for b := r.Block(); b != nil; b = b.Idom() {
+				depth++
+			}
+			if depth > best {
+				best, name = depth, ri.visited
+			}
+		}
+		if name == "" {
+			e.fail("visited(): several map ranges and none dominates this point")
 		}
 	}
 	if name == "" {
